@@ -35,3 +35,9 @@ Definition mk_pairing (l : list (N * list N)) : pairing :=
   mk_map pid (map (fun kv => (fst kv, map pid (snd kv))) l).
 Definition mk_pset (l : list N) : pset := mk_map pid (map (fun q => (q, tt)) l).
 Definition mk_rank (l : list (N * N)) : rankmap := mk_map pid l.
+
+From LogosV Require Import Base.Utf8.
+Definition ustate_of_N (n : N) : ustate :=
+  match n with 0 => U0 | 1 => U1 | 2 => U2 | 3 => U2a | 4 => U2b | 5 => U3 | 6 => U3a | 7 => U3b | _ => URej end.
+Definition mk_upairs (l : list (N * list N)) : upairs :=
+  mk_map pid (map (fun kv => (fst kv, map ustate_of_N (snd kv))) l).
